@@ -17,6 +17,33 @@ HANG_S = 8
 
 
 def run(c):
+    """Pooled mode: which sub-cube gets which invocation number depends on thread timing, so a counterexample subset is
+    only one representative: every subset of raising invocations must satisfy the property, and the replay also tries the
+    single-invocation subsets and the full one (a few repetitions each) before it calls a candidate unreproduced."""
+    if not c.get("pooled") or c.get("exc_base") or c.get("_single"):
+        return run_one(c)
+    K = c["K_sub"]
+    subsets = [list(c["subset"])]
+    for j in range(K):
+        sj = [i == j for i in range(len(c["subset"]))]
+        if sj not in subsets:
+            subsets.append(sj)
+    full = [i < K for i in range(len(c["subset"]))]
+    if full not in subsets:
+        subsets.append(full)
+    first = None
+    for sub in subsets:
+        for rep in range(3):
+            r = run_one(dict(c, subset=sub, _single=True))
+            if first is None:
+                first = r
+            if r.get("violates"):
+                r["subset_used"] = sub
+                return r
+    return first
+
+
+def run_one(c):
     N, extras, dense = o_aggs.build(c)
     fact, vals, vvalid = o_aggs.fact_of(c)
     weights, w, wv = o_aggs.weights_of(c)
